@@ -76,7 +76,17 @@ func (p *Pool) Get() any {
 
 		if p.created < p.limit {
 			p.created++
-			return p.create()
+			created := false
+			defer func() {
+				// give the slot back if create panicked
+				if !created {
+					p.created--
+					p.cond.Signal()
+				}
+			}()
+			item := p.create()
+			created = true
+			return item
 		}
 
 		p.cond.Wait()
